@@ -255,3 +255,203 @@ pub fn fuzz_regress(ctx: &Ctx, target: &str) {
         }
     });
 }
+
+// ---------------------------------------------------------------------------------------------
+// Messages whose LM-OTS message digest has a structured CONTENT (found by a targeted search): runs
+// of zero bytes, repeated bytes, aligned all-zero or all-equal 32-bit words, leading / trailing
+// 0x00 / 0xff. Uniformly drawn messages reach these with probability 2^-8 .. 2^-29 per signature.
+
+/// Seed tag and leaf of the single-level key (w, H2) the structured messages are searched for. The
+/// digest H(I || q || D_MESG || C || msg) does not depend on w, so one search serves all four W.
+pub const STRUCT_SEED_TAG: u64 = 0x57c7;
+pub const STRUCT_Q: u32 = 1;
+
+#[derive(Clone, Debug, serde::Serialize, serde::Deserialize)]
+pub struct StructCase {
+    pub hash: HashId,
+    pub w: u32,
+    pub feature: String,
+    pub msg: crate::gen::Hex,
+}
+
+const FEATURES: [&str; 11] = [
+    "zero-word-aligned",
+    "equal-word-aligned",
+    "four-equal-neighbours",
+    "three-zero-neighbours",
+    "leading-zero-byte",
+    "leading-two-zero-bytes",
+    "leading-ff-byte",
+    "trailing-zero-byte",
+    "trailing-ff-byte",
+    "two-ff-neighbours",
+    "top-bits-clear-first-word",
+];
+
+fn features_of(q: &[u8], hits: &mut [bool; 11]) {
+    let n = q.len();
+    *hits = [false; 11];
+    for wd in q.chunks_exact(4) {
+        if wd == [0, 0, 0, 0] {
+            hits[0] = true;
+        }
+        if wd[0] == wd[1] && wd[1] == wd[2] && wd[2] == wd[3] && (wd[0] >> 4) != (wd[0] & 15) {
+            hits[1] = true;
+        }
+    }
+    for i in 0..n - 3 {
+        if q[i] != 0 && q[i] == q[i + 1] && q[i] == q[i + 2] && q[i] == q[i + 3] {
+            hits[2] = true;
+        }
+    }
+    for i in 0..n - 2 {
+        if q[i] == 0 && q[i + 1] == 0 && q[i + 2] == 0 {
+            hits[3] = true;
+        }
+    }
+    hits[4] = q[0] == 0;
+    hits[5] = q[0] == 0 && q[1] == 0;
+    hits[6] = q[0] == 0xff;
+    hits[7] = q[n - 1] == 0;
+    hits[8] = q[n - 1] == 0xff;
+    for i in 0..n - 1 {
+        if q[i] == 0xff && q[i + 1] == 0xff {
+            hits[9] = true;
+        }
+    }
+    hits[10] = q[0] < 0x10 && q[1] < 0x10 && q[2] < 0x10;
+}
+
+/// Up to `per_feature` message counters per feature among `cands` candidates (8-byte big-endian
+/// counters as messages), searched on all cores.
+pub fn grind_structured(h: HashId, cands: u64, per_feature: usize) -> Vec<(String, Vec<u8>)> {
+    use sha2::Digest;
+    use sha3::digest::{ExtendableOutput, Update, XofReader};
+    let m = Model::rfc(h);
+    let n = h.n();
+    let seed = crate::gen::expand(STRUCT_SEED_TAG, n);
+    let (tseed, id) = hss::root_seed_and_id(&m, &seed);
+    let c = hss::randomizer(&m, &tseed, &id, STRUCT_Q);
+    let mut prefix: Vec<u8> = Vec::new();
+    prefix.extend_from_slice(&id);
+    prefix.extend_from_slice(&STRUCT_Q.to_be_bytes());
+    prefix.extend_from_slice(&crate::refmodel::D_MESG);
+    prefix.extend_from_slice(&c);
+    let workers = crate::engine::WORKERS as u64;
+    let found: Mutex<Vec<Vec<u64>>> = Mutex::new(vec![Vec::new(); FEATURES.len()]);
+    std::thread::scope(|s| {
+        for k in 0..workers {
+            let prefix = &prefix;
+            let found = &found;
+            s.spawn(move || {
+                let mut local: Vec<Vec<u64>> = vec![Vec::new(); FEATURES.len()];
+                let mut hits = [false; 11];
+                let mut out = [0u8; 32];
+                let mut sha_base = sha2::Sha256::new();
+                Digest::update(&mut sha_base, prefix);
+                let mut shake_base = sha3::Shake256::default();
+                shake_base.update(prefix);
+                let mut i = k;
+                while i < cands {
+                    if h.is_shake() {
+                        let mut x = shake_base.clone();
+                        x.update(&i.to_be_bytes());
+                        x.finalize_xof().read(&mut out[..n]);
+                    } else {
+                        let mut x = sha_base.clone();
+                        Digest::update(&mut x, i.to_be_bytes());
+                        out.copy_from_slice(&x.finalize());
+                    }
+                    // cheap pre-filter: almost every digest has none of the features
+                    let q = &out[..n];
+                    if q[0] == 0 || q[0] == 0xff || q[n - 1] == 0 || q[n - 1] == 0xff || q[0] < 0x10 || q.windows(2).any(|p| p[0] == p[1]) {
+                        features_of(q, &mut hits);
+                        for (f, hit) in hits.iter().enumerate() {
+                            if *hit && local[f].len() < per_feature {
+                                local[f].push(i);
+                            }
+                        }
+                    }
+                    i += workers;
+                }
+                let mut g = found.lock().unwrap();
+                for f in 0..FEATURES.len() {
+                    g[f].extend_from_slice(&local[f]);
+                }
+            });
+        }
+    });
+    let mut out = Vec::new();
+    for (f, mut v) in found.into_inner().unwrap().into_iter().enumerate() {
+        v.sort();
+        v.truncate(per_feature);
+        for ctr in v {
+            out.push((FEATURES[f].to_string(), ctr.to_be_bytes().to_vec()));
+        }
+    }
+    out
+}
+
+/// All structured-digest cases of a tier: every hash x every feature found x all four W.
+pub fn structured_cases(ctx: &Ctx) -> Vec<StructCase> {
+    let mut out = Vec::new();
+    for h in crate::hashid::ALL_HASHES {
+        // the aligned zero word needs about 2^32 / (n/4) candidates: SHA-256/32 in the quick tier,
+        // every hash in the thorough tier
+        let cands: u64 = match (ctx.quick(), h) {
+            (true, HashId::Sha256_256) => 1 << 30,
+            (true, _) => 1 << 24,
+            (false, x) if x.is_shake() => 1 << 30,
+            (false, _) => 1 << 32,
+        };
+        for (feature, msg) in grind_structured(h, cands, 2) {
+            for w in [1u32, 2, 4, 8] {
+                out.push(StructCase { hash: h, w, feature: feature.clone(), msg: crate::gen::Hex(msg.clone()) });
+            }
+        }
+    }
+    out
+}
+
+/// Sign the structured message with the library; the bytes must be the reference signature, all
+/// three verifier entries and the reference verifier must accept it.
+pub fn check_structured(ctx: &Ctx, c: &StructCase) -> crate::engine::Verdict {
+    use crate::engine::{fail, pass};
+    let n = c.hash.n();
+    let m = compat_model(ctx, c.hash);
+    let levels: Vec<Level> = vec![(c.w, 2)];
+    let seed = crate::gen::expand(STRUCT_SEED_TAG, n);
+    let blob = hss::private_key_blob(&levels, STRUCT_Q as u64, &seed);
+    let msg = &c.msg.0;
+    // the searched property really holds for this (I, q, C): guards against a stale search key
+    let (tseed, id) = hss::root_seed_and_id(&m, &seed);
+    let rnd = hss::randomizer(&m, &tseed, &id, STRUCT_Q);
+    let qd = crate::refmodel::ots::message_digest(&m, &id, STRUCT_Q, &rnd, msg);
+    let mut hits = [false; 11];
+    features_of(&qd, &mut hits);
+    let fi = FEATURES.iter().position(|f| *f == c.feature).unwrap_or(0);
+    if !hits[fi] {
+        return pass("feature-absent", false);
+    }
+    let sig = match libapi::sign(c.hash, msg, &blob, libapi::Cb::Accept, None).0 {
+        Out::Ok(s) => s,
+        o => return fail(format!("sign-{} structured-digest", o.kind()), format!("sign {} for a message whose digest is {} ({}): {:?}", o.kind(), crate::gen::hex(&qd), c.feature, o.panic_msg())),
+    };
+    let want = hss::sign(&m, &levels, &seed, STRUCT_Q as u128, msg);
+    if sig != want {
+        return fail(
+            format!("sig-mismatch structured-digest {}", first_diff_field(&m, &sig, &want).split(' ').last().unwrap_or("").trim_matches(|ch: char| ch.is_ascii_digit() || ch == '[' || ch == ']')),
+            format!("library signature differs from the reference signature at '{}' for a message whose digest is {} ({}, {} W{})", first_diff_field(&m, &sig, &want), crate::gen::hex(&qd), c.feature, c.hash.name(), c.w),
+        );
+    }
+    let pk = hss::public_key(&m, &levels, &seed);
+    for (e, r) in libapi::verify_all(c.hash, msg, &sig, &pk).iter().enumerate() {
+        if !r.is_ok() {
+            return fail(format!("verify-err structured-digest entry={}", e), format!("the library rejects ({}) its own signature over a message whose digest is {} ({}, {} W{})", r.kind(), crate::gen::hex(&qd), c.feature, c.hash.name(), c.w));
+        }
+    }
+    if !hss::verify(&m, msg, &sig, &pk) {
+        return fail("model-verify-rejects structured-digest", "reference verifier rejects the library's signature");
+    }
+    pass(format!("{}|w{}|{}", c.hash.name(), c.w, c.feature), true)
+}
